@@ -94,3 +94,16 @@ Print Assumptions C03_call_scan_decides.
 Theorem C03_unrepaired_call_scan_refuted : exists calls s e c, calls_ok 0 calls /\ s < e /\ In c calls /\ inside c s e /\ old_scan calls s e <> InCall c.
 Proof. exact old_scan_refuted. Qed.
 Print Assumptions C03_unrepaired_call_scan_refuted.
+
+(* ---- which ARGUMENT of the call a reference is: decided by its position (Model/ArgIndex.v; loop source pinned) ---- *)
+Require Import PX.Model.ArgIndex PX.Proofs.ArgIndex.
+(* a position inside the i-th argument is attributed to the i-th argument, whatever the other arguments hold -- in particular when another
+   argument mentions the same name (indexed-repeat(${q}, ${r}, ${q}): defect F72) *)
+Theorem C03_position_decides_argument : forall pre a post p,
+  start_after pre <= p < start_after pre + length a -> arg_index (pre ++ a :: post) p = Some (length pre).
+Proof. exact position_decides_argument. Qed.
+Print Assumptions C03_position_decides_argument.
+Theorem C03_argument_found_holds_position : forall args p i, arg_index args p = Some i ->
+  exists pre a post, args = pre ++ a :: post /\ i = length pre /\ start_after pre <= p < start_after pre + length a.
+Proof. exact argument_found_holds_position. Qed.
+Print Assumptions C03_argument_found_holds_position.
